@@ -372,8 +372,11 @@ def ymdMonths (n : Int) : Int := Int.tmod n 12
 
 /-! ## FEEL operators on durations and dates (`build_add` `builders.rs:130-168`, `build_neg`
 `:1288-1300`, `build_sub` `:1644-1680`; the arms for years-and-months durations and for the
-difference of two days-and-time durations exist since the repair of F21-*). `i128`/`i64`
-wrap-around of sums is out of reach of values that literals can denote and is not modelled. -/
+difference of two days-and-time durations exist since the repair of F21-*). These are the values
+on unbounded integers; what the `i64` / `i128` arithmetic of the code does at the ends of its
+range (null for years and months durations since the repair 80fdaec, a panic or a wrapped value
+for days and time durations, finding F62-dtd-i128) is `Dmn/Model/TemporalMachine.lean`, tied to
+these functions by `temporal_machine_eq_ideal` (Props/C05.lean). -/
 
 def feelAddDtd (a b : Int) : Option Int := some (a + b)
 def feelNegDtd (a : Int) : Option Int := some (-a)
@@ -858,15 +861,15 @@ def atLiteral (zk : List Char → Bool) (cs : List Char) : Value :=
           | .panic => .panic
           | .reject => .null
 
-/-- `string(v)` on temporal values: `Display`. `i64::MIN` months (denoted by
-`P9223372036854775808M`) panics in `self.0.abs()` (`ym_duration.rs:86`) in a build with
-overflow checks. -/
+/-- `string(v)` on temporal values: `Display`. `i64::MIN` months (the result of a subtraction; no
+literal denotes them) are printed through `unsigned_abs()` since the repair e101009
+(`ym_duration.rs:86-89`; `Dmn.TemporalMachine.ymPrint_eq`); `Lit.panic` is not produced any more. -/
 def printValue : Value → Lit (List Char)
   | .date d => .ok (printDate d)
   | .time t => .ok (printTime t)
   | .dateTime dt => .ok (printDateTime dt)
   | .dtDur n => .ok (printDtDur n)
-  | .ymDur n => if n = i64Min then .panic else .ok (printYmDur n)
+  | .ymDur n => .ok (printYmDur n)
   | .null => .reject
   | .panic => .reject
 
